@@ -332,8 +332,7 @@ def harnesses(tier: str) -> List[H]:
     truth = lambda n: [B("a%d" % i) for i in range(n)] + [B("q%d" % i) for i in range(n)]  # noqa: E731
     if tier == "quick":
         cfgs = [("chain3", "method", 0), ("two_bases", "method", 0), ("diamond", "method", 0),
-                ("two_bases", "prop_get", 0), ("two_bases", "static", 1), ("chain3", "class", 1),
-                ("two_bases_deep", "method", 0)]
+                ("two_bases", "prop_get", 0), ("two_bases", "static", 1), ("chain3", "class", 1)]
     else:
         cfgs = [(s, k, via) for s in SHAPE_NAMES for k in KINDS for via in (0, 1)]
     for (shape, kind, via) in cfgs:
@@ -348,6 +347,8 @@ def harnesses(tier: str) -> List[H]:
             for i in range(n):
                 if i == 0 and o0 is not None:
                     defaults["o0"] = o0
+                elif tier == "quick" and n == 4 and i in (1, 3):
+                    params.append(I("o%d" % i, 0, 2))
                 else:
                     params.append(I("o%d" % i, 0, len(OPTS) - 1))
             inv_classes = [0] if tier == "quick" else [0, n - 1]
